@@ -26,8 +26,8 @@ def corpus(tier, seed):
     big = 100000 if tier != 'quick' else 30000
     fams = []
 
-    def add(family, pattern, subject, flags=None):
-        fams.append({'family': family, 'pattern': pattern, 'subject': subject, 'flags': flags})
+    def add(family, pattern, subject, flags=None, **kw):
+        fams.append(dict({'family': family, 'pattern': pattern, 'subject': subject, 'flags': flags}, **kw))
     for n in (25, 40, 5000):
         a = 'a' * n
         add('nested quantifier', r'(a+)+b', a + 'c')
@@ -78,6 +78,9 @@ def corpus(tier, seed):
         add('escapes in a group + backtracking', '(' + '\\d' * k + ')?(a|aa)+$', 'a' * 40 + 'b')
         add('escapes in a group + backtracking', '(' + '\\d\\d\\d\\d-\\d\\d-\\d\\d \\d\\d:\\d\\d:\\d\\d\\.' + '\\d' * (k - 14) + ')|(a+)+$', 'a' * 40 + '!')
         add('escapes in a group + backtracking', '(?:' + '\\w\\s' * (k // 2) + ')*(x+x+)+y', 'x' * 60)
+    for x in (None, -1, 0, 3600, 'i', 0.5):
+        add('a fourth argument', r'(a|aa)+$', 'a' * 45 + '!', None, extra=x)
+        add('a fourth argument', r'(a+)+b', 'a' * 40 + 'c', 'i', extra=x, extra2=(x == 3600))
     add('invalid pattern', r'(a', 'aaa')
     add('invalid pattern', r'a{2,1}', 'aaa')
     add('non-string', None, 'aaa')
@@ -192,6 +195,11 @@ def _worker(conn, repo):
         del log[:]
         names = {'s': job['subject'], 'p': job['pattern'], 'f': job['flags']}
         src = '%s(s, p, f)' % job['fn'] if job['flags'] is not None else '%s(s, p)' % job['fn']
+        if 'extra' in job:
+            # more arguments than (subject, pattern, flags): whatever the builtin makes of them, the call is bounded
+            names['f'] = job['flags'] if job['flags'] is not None else ''
+            names['x'] = job['extra']
+            src = '%s(s, p, f, x)' % job['fn'] if not job.get('extra2') else '%s(s, p, f, x, x)' % job['fn']
         t0 = time.perf_counter()
         try:
             r = parser.eval(src, names=names, max_ops_evaluated=50)
